@@ -44,6 +44,15 @@ def gen(rnd, nh_only=False, close=False):
         QB, _ = np.linalg.qr(rand((N - dA, N - dA))); Q = np.eye(N, dtype=complex); Q[dA:, dA:] = QB; R = Q; L = Q
     elif herm:
         Q, _ = np.linalg.qr(rand((N, N))); R = Q; L = Q
+    elif rnd.random() < 0.25:
+        # a non-Hermitian H_0 whose explicit eigenvectors are orthonormal (left = right: handed over as single bases, not as pairs): complex levels on a
+        # unitary basis, the implicit part a non-normal matrix S D S^-1 inside the orthogonal complement
+        structure = "orthonormal explicit vectors, non-normal rest"; cplx = True
+        Q, _ = np.linalg.qr(rng.normal(size=(N, N)) + 1j * rng.normal(size=(N, N))); nB = N - dA
+        Q1, _ = np.linalg.qr(rng.normal(size=(nB, nB)) + 1j * rng.normal(size=(nB, nB))); Q2, _ = np.linalg.qr(rng.normal(size=(nB, nB)) + 1j * rng.normal(size=(nB, nB)))
+        sv = rng.uniform(0.6, 1.6, size=nB); S_ = (Q1 * sv) @ Q2.conj().T; Sit = (Q1 / sv) @ Q2.conj().T
+        ev = ev.astype(complex) + 1j * rng.uniform(-1, 1, size=N)
+        R = Q.copy(); L = Q.copy(); R[:, dA:] = Q[:, dA:] @ S_; L[:, dA:] = Q[:, dA:] @ Sit
     elif rnd.random() < 0.2:
         # a weakly non-Hermitian problem: left and right vectors differ by a few 1e-7 — far above rounding, below every "close enough" tolerance
         structure = "nearly Hermitian (R, L)"
@@ -114,7 +123,8 @@ def main(seed, ncases, driver, out, mode="all"):
         before = {n: (m.tobytes() if dense_in else (m.data.tobytes(), m.indices.tobytes(), m.indptr.tobytes())) for n, m in H.items()}
         rest = list(range(P["dA"], N))
         def realify(v): return v.real.copy() if np.abs(v.imag).max() == 0 else v
-        def basis(idx): return realify(R[:, idx]) if herm else (R[:, idx], L[:, idx])
+        single = P["structure"] == "orthonormal explicit vectors, non-normal rest"
+        def basis(idx): return realify(R[:, idx]) if herm else (R[:, idx] if single and idx is not rest else (R[:, idx], L[:, idx]))
         vecsA = [basis(p) for p in P["parts"]]
         key = f"{P['structure']}: {'dense' if dense_in else 'sparse'} {P['solver']} hermitian={herm} complex={P['cplx']} explicit={len(P['parts'])} degeneracy={P['pattern']} fd={bool(P['fd'])}"
         dist[key] = dist.get(key, 0) + 1
